@@ -652,6 +652,11 @@ func typeHoldsNamed(t types.Type, pkg *types.Package, name string, d int) bool {
 				}
 			}
 		}
+		// a named container type of the same package (type epochSet map[uint64]*Epoch)
+		switch x.Underlying().(type) {
+		case *types.Map, *types.Slice, *types.Array, *types.Pointer, *types.Chan:
+			return typeHoldsNamed(x.Underlying(), pkg, name, d+1)
+		}
 		return false
 	case *types.Pointer:
 		return typeHoldsNamed(x.Elem(), pkg, name, d+1)
